@@ -55,6 +55,11 @@ CHECKS={
    text='Every unordered pair over a 20-command alphabet (new, new with claim, new in epic, set with 1/3/result fields, unclaim, set doing, claim, claim <id>, sequence both directions, rm, chain, plan, prune, compact, init, reopen) plus init / missing-lock-file races and triples, each explored under every interleaving of the hooked store steps up to the preemption bound (quick: 1, 2 for the conflict-prone single-section commands; thorough: 3). Oracle: serial equivalence on the real implementation in an order consistent with real time for the commands that exited 0 (replies + final observable state), failed commands contribute nothing, log is whole JSON lines, nobody blocks in flock. Composite commands are additionally tried at lock-section granularity: explainable only that way = known finding K1-K3 attributed to that call site.',
    note='Same assumptions as C01. Serial reference runs use the same binary (differential oracle).',
    technique='stateless model checking (iterative preemption bounding) of real processes + serial-equivalence oracle'),
+
+ 'C13': dict(engine='SCHED', level='model_checking', design='3/C13',
+   text='A lock-free reader process (list --json --all, show --json; thorough also --epics / --ready) runs against every writer of the C02 alphabet plus a >4 KiB multi-event append, on a small and a 140 KB store (multi-read scans), and against two writers at once; every interleaving of the reader\'s hooked steps (path stat, open, tail probe, each read chunk) with the writer\'s steps (lock, each appended line, temp write/flush/sync, rename) up to 2 (thorough 3) preemptions. Oracle: the reader exits 0 and its stdout equals the same command\'s stdout on one of the store versions that existed between its invocation and its exit (the project directory is snapshotted after every scheduler step; a moment without a log does not count).',
+   note='A single write(2)/rename(2) is indivisible to the reader (page-granular tearing of one write is not modelled). Code between two hook points is atomic.',
+   technique='stateless model checking (iterative preemption bounding) of real processes + version-set oracle'),
 }
 NA_REASON='check not built yet (work in progress; design in DESIGN.md)'
 m={"version":1,
